@@ -240,10 +240,28 @@ static void cmd_reg (int argc, char **argv, int fallback)
   if (argc < 3 || !conn) { ob_puts (&out, "ERR badargs"); return; }
   r = malloc (sizeof *r); r->path = strdup (argv[1]); r->handles = argv[2][0] == 'h'; r->fallback = fallback;
   dbus_error_init (&err);
+  if (argc > 3 && !strcmp (argv[3], "plain"))
+    {
+      /* the older entry points without a DBusError (they report an occupied path by a warning and FALSE) */
+      ok = fallback ? dbus_connection_register_fallback (conn, argv[1], &vtable, r)
+                    : dbus_connection_register_object_path (conn, argv[1], &vtable, r);
+      if (!ok) dbus_set_error_const (&err, "plain.Failed", "register returned FALSE");
+    }
+  else
   ok = fallback ? dbus_connection_try_register_fallback (conn, argv[1], &vtable, r, &err)
                 : dbus_connection_try_register_object_path (conn, argv[1], &vtable, r, &err);
   if (ok) ob_puts (&out, "OK");
   else { ob_printf (&out, "ERR %s", err.name ? err.name : "?"); dbus_error_free (&err); free (r->path); free (r); }
+}
+
+/* DATA <path> : what dbus_connection_get_object_path_data() says is registered at exactly this path */
+static void cmd_data (int argc, char **argv)
+{
+  void *d = (void *) 1; Reg *r;
+  if (argc < 2 || !conn) { ob_puts (&out, "ERR badargs"); return; }
+  if (!dbus_connection_get_object_path_data (conn, argv[1], &d)) { ob_puts (&out, "ERR oom"); return; }
+  r = d;
+  if (r) ob_printf (&out, "OK %s:%s:%s", r->path, r->fallback ? "fb" : "ex", r->handles ? "h" : "d"); else ob_puts (&out, "OK -");
 }
 
 static void cmd_list (int argc, char **argv)
@@ -359,6 +377,7 @@ int main (int argc, char **argv)
       else if (!strcmp (a[0], "UNREG"))
         { if (n > 1 && dbus_connection_unregister_object_path (conn, a[1])) finish ("OK"); else ob_puts (&out, "ERR unregister"); }
       else if (!strcmp (a[0], "LIST")) cmd_list (n, a);
+      else if (!strcmp (a[0], "DATA")) cmd_data (n, a);
       else if (!strcmp (a[0], "PEER"))
         {
           size_t len; unsigned char *b = n > 1 ? unhex (a[1], &len) : NULL;
